@@ -558,4 +558,61 @@ theorem filterMap_eq_flatMap (f : Seg → Option Hit) : ∀ S : List Seg,
     simp only [List.filterMap_cons, List.flatMap_cons, filterMap_eq_flatMap f S]
     cases f s <;> simp
 
+/-! ### trajectories sampled BACKWARD in time (non-increasing stamps): the mirrored order lemmas -/
+
+theorem timeAt_mem_desc (s : Seg) {a : ℚ} (h0 : 0 ≤ a) (h1 : a ≤ 1) (ht : s.b.t ≤ s.a.t) :
+    s.b.t ≤ timeAt s a ∧ timeAt s a ≤ s.a.t := by
+  unfold timeAt
+  constructor <;> nlinarith
+
+theorem timeAt_anti (s : Seg) {u u' : ℚ} (ht : s.b.t ≤ s.a.t) (h : u ≤ u') : timeAt s u' ≤ timeAt s u := by
+  unfold timeAt; nlinarith
+
+theorem segsFrom_times_desc : ∀ (l : List Sample) (k : ℕ) (p : Option Sample),
+    l.Pairwise (fun a b => b.t ≤ a.t) →
+    (∀ s ∈ segsFrom k p l, s.b.t ≤ s.a.t ∧ s.a ∈ l) ∧
+    (segsFrom k p l).Pairwise (fun a b => b.a.t ≤ a.b.t)
+  | [], _, _, _ => by simp [segsFrom]
+  | [_], _, _, _ => by simp [segsFrom]
+  | a :: b :: rest, k, p, h => by
+    have h' : (b :: rest).Pairwise (fun a b => b.t ≤ a.t) := (List.pairwise_cons.mp h).2
+    obtain ⟨ih1, ih2⟩ := segsFrom_times_desc (b :: rest) (k + 1) (some a) h'
+    have hab : b.t ≤ a.t := (List.pairwise_cons.mp h).1 b (by simp)
+    refine ⟨?_, ?_⟩
+    · intro s hs
+      simp only [segsFrom, List.mem_cons] at hs
+      rcases hs with rfl | hs
+      · exact ⟨hab, by simp⟩
+      · exact ⟨(ih1 s hs).1, List.mem_cons_of_mem _ (ih1 s hs).2⟩
+    · simp only [segsFrom, List.pairwise_cons]
+      refine ⟨fun s hs => ?_, ih2⟩
+      have hm := (ih1 s hs).2
+      rcases List.mem_cons.mp hm with e | hm'
+      · rw [e]
+      · exact (List.pairwise_cons.mp h').1 _ hm'
+
+/-- order along a backward-sampled trajectory: by segment, and by DEcreasing time -/
+def BeforeDesc (a b : Hit) : Prop := a.seg ≤ b.seg ∧ b.time ≤ a.time
+
+theorem flatMap_ordered_desc (f : Seg → List Hit) (l : List Sample) (ht : l.Pairwise (fun a b => b.t ≤ a.t))
+    (hf : ∀ s, (∀ h ∈ f s, InSeg s h) ∧ (f s).Pairwise (fun a b => a.s ≤ b.s)) :
+    ((segs l).flatMap f).Pairwise BeforeDesc := by
+  obtain ⟨t1, t2⟩ := segsFrom_times_desc l 0 none ht
+  have hk := segsFrom_pairwise_k l 0 none
+  rw [List.pairwise_flatMap]
+  constructor
+  · intro s hs
+    refine List.Pairwise.imp_of_mem ?_ (hf s).2
+    intro a b ha hb hab
+    obtain ⟨a1, -, -, a4⟩ := (hf s).1 a ha
+    obtain ⟨b1, -, -, b4⟩ := (hf s).1 b hb
+    exact ⟨by rw [a1, b1], by rw [a4, b4]; exact timeAt_anti s (t1 s hs).1 hab⟩
+  · refine List.Pairwise.imp_of_mem ?_ (hk.and t2)
+    intro s s' hs hs' hss x hx y hy
+    obtain ⟨a1, a2, a3, a4⟩ := (hf s).1 x hx
+    obtain ⟨b1, b2, b3, b4⟩ := (hf s').1 y hy
+    refine ⟨by rw [a1, b1]; exact Nat.le_of_lt hss.1, ?_⟩
+    rw [a4, b4]
+    exact le_trans (timeAt_mem_desc s' b2 b3 (t1 s' hs').1).2 (le_trans hss.2 (timeAt_mem_desc s a2 a3 (t1 s hs).1).1)
+
 end HitenModel.C15
